@@ -25,7 +25,7 @@ def main():
     try:
         for c in checks:
             t0 = time.time()
-            r = sh(f"cd {VERIF} && timeout -k 5 1200 ./check {c} --tier quick")
+            r = sh(f"cd {VERIF} && VERIF_EVIDENCE_DIR={VERIF}/scratch/mutation_evidence timeout -k 5 1200 ./check {c} --tier quick")
             sigs = [l.strip()[len("signature: "):] for l in r.stdout.splitlines() if l.strip().startswith("signature:")]
             res["checks"][c] = {"exit": r.returncode, "detected": r.returncode == 1, "signatures": sigs[:5],
                                 "wall_s": round(time.time() - t0, 1)}
